@@ -49,6 +49,14 @@ pub struct ExEitherOrBoth<A, B>(EitherOrBoth<A, B>);
 pub assume_specification<T>[<Box<T> as From<T>>::from](t: T) -> (r: Box<T>) ensures *r == t;
 pub assume_specification[<IdentiCall as Clone>::clone](t: &IdentiCall) -> (r: IdentiCall) ensures r == *t;
 
+// ---- further /repo functions with ASSUMED contracts in this unit (bodies pinned) ------------------------------------------------
+//@@ ASSUME src/check/context/function/mod.rs | impl LookupFunction<&StringName, Function> for Context | function
+//@@ ASSUME src/check/context/clss/mod.rs | impl LookupClass<&Name, HashSet<Class>> for Context | class
+//@@ ASSUME src/check/constrain/generate/operation.rs | free | gen_magic
+//@@ ASSUME src/check/ident.rs | impl Identifier | fields
+//@@ ASSUME src/check/ident.rs | impl Identifier | all_calls
+//@@ ASSUME src/check/ident.rs | impl IdentiCall | without_obj
+//@@ ASSUME src/check/ident.rs | impl TryFrom<&AST> for Identifier | try_from
 // ---- call_parameters (C05: "argument-by-argument subtype constraints", arity) --------------------------------------------------
 /// the class a parameter type resolves to in the context (Context::class + Name::from(&Class)): a function of both
 pub uninterp spec fn class_name(ctx: Context, ty: Name) -> Name;
